@@ -9,8 +9,30 @@ use std::sync::{Arc, Condvar, Mutex};
 
 #[derive(Debug)]
 struct Gate {
-  state: Mutex<u8>, // 0 = idle, 1 = a thread is inside inner.map(), 2 = released
+  state: Mutex<u8>, // 0 = idle, 1 = a thread is inside the gated inner call, 2 = released
   cv: Condvar,
+  gate_map: bool,
+  gate_stream: bool,
+}
+
+impl Gate {
+  /// the FIRST caller announces itself and waits (at most 1.5 s) to be released; later callers pass
+  fn pass(&self) {
+    let mut g = self.state.lock().unwrap();
+    if *g == 0 {
+      *g = 1;
+      self.cv.notify_all();
+      let deadline = std::time::Instant::now() + std::time::Duration::from_millis(1500);
+      while *g != 2 {
+        let now = std::time::Instant::now();
+        if now >= deadline {
+          break;
+        }
+        let (g2, _) = self.cv.wait_timeout(g, deadline - now).unwrap();
+        g = g2;
+      }
+    }
+  }
 }
 
 #[derive(Debug, Clone)]
@@ -46,15 +68,9 @@ impl Source for Gated {
   }
   fn map(&self, options: &MapOptions) -> Option<SourceMap> {
     // tell the other thread that the cache lookup has already missed, then wait until it has filled the cache
-    let mut g = self.gate.state.lock().unwrap();
-    if *g == 0 {
-      *g = 1;
-      self.gate.cv.notify_all();
-      while *g != 2 {
-        g = self.gate.cv.wait(g).unwrap();
-      }
+    if self.gate.gate_map {
+      self.gate.pass();
     }
-    drop(g);
     self.inner.map(options)
   }
   fn to_writer(&self, w: &mut dyn std::io::Write) -> std::io::Result<()> {
@@ -70,6 +86,9 @@ impl StreamChunks for Gated {
     on_source: rspack_sources::stream_chunks::OnSource<'_, 'a>,
     on_name: rspack_sources::stream_chunks::OnName<'_, 'a>,
   ) -> rspack_sources::stream_chunks::GeneratedInfo {
+    if self.gate.gate_stream {
+      self.gate.pass();
+    }
     self.inner.stream_chunks(options, on_chunk, on_source, on_name)
   }
 }
@@ -90,20 +109,31 @@ fn name_ptr(src: &CachedSource<Gated>) -> usize {
   p
 }
 
-pub fn run(v: &Value) -> Value {
-  let text = v["tree"]["inner"]["text"].as_str().unwrap_or("a;b").to_string();
-  let gate = Arc::new(Gate { state: Mutex::new(0), cv: Condvar::new() });
-  let cached = Arc::new(CachedSource::new(Gated { inner: OriginalSource::new(text, "a.js"), gate: gate.clone() }));
+fn scenario(text: &str, first_is_map: bool) -> Value {
+  let gate = Arc::new(Gate { state: Mutex::new(0), cv: Condvar::new(), gate_map: first_is_map, gate_stream: !first_is_map });
+  let cached = Arc::new(CachedSource::new(Gated { inner: OriginalSource::new(text.to_string(), "a.js"), gate: gate.clone() }));
   let c0 = cached.clone();
-  let t0 = std::thread::spawn(move || c0.map(&MapOptions::new(true)).is_some());
-  // wait until T0 is inside inner.map() (its cache lookup has missed)
+  let t0 = std::thread::spawn(move || {
+    if first_is_map {
+      c0.map(&MapOptions::new(true)).is_some()
+    } else {
+      name_ptr(&c0) != 0
+    }
+  });
+  // wait (bounded) until T0 is inside the gated inner call: its cache lookup has missed
   {
     let mut g = gate.state.lock().unwrap();
+    let deadline = std::time::Instant::now() + std::time::Duration::from_millis(1500);
     while *g != 1 {
-      g = gate.cv.wait(g).unwrap();
+      let now = std::time::Instant::now();
+      if now >= deadline {
+        break;
+      }
+      let (g2, _) = gate.cv.wait_timeout(g, deadline - now).unwrap();
+      g = g2;
     }
   }
-  let _ = name_ptr(&cached); // fills the cache
+  let _ = name_ptr(&cached); // fills the cache (blocks on the shard lock while T0 holds the entry)
   let before = name_ptr(&cached); // replay path: borrows from the cached map
   {
     let mut g = gate.state.lock().unwrap();
@@ -112,5 +142,53 @@ pub fn run(v: &Value) -> Value {
   }
   let _ = t0.join();
   let after = name_ptr(&cached);
-  json!({"borrowed_name_ptr_before": before, "borrowed_name_ptr_after": after, "replaced": before != 0 && before != after})
+  json!({"first_op": if first_is_map { "map" } else { "stream" }, "borrowed_name_ptr_before": before, "borrowed_name_ptr_after": after, "replaced": before != 0 && after != 0 && before != after})
+}
+
+/// lazy sort of ReplaceSource under two racing readers (no forcing point inside the library: stress, many rounds)
+fn stress_replace() -> Value {
+  let n = 60_000usize;
+  let text: String = std::iter::repeat('a').take(n).collect();
+  let mut mismatches = 0;
+  for _round in 0..6 {
+    let mut r = ReplaceSource::new(OriginalSource::new(text.clone(), "a.js"));
+    for i in (0..n).rev() {
+      r.insert(i as u32, "b", None);
+    }
+    let mut reference = String::with_capacity(2 * n);
+    for _ in 0..n {
+      reference.push('b');
+      reference.push('a');
+    }
+    let r = Arc::new(r);
+    let barrier = Arc::new(std::sync::Barrier::new(2));
+    let hs: Vec<_> = (0..2)
+      .map(|_| {
+        let r = r.clone();
+        let b = barrier.clone();
+        std::thread::spawn(move || {
+          b.wait();
+          r.source().len()
+        })
+      })
+      .collect();
+    for h in hs {
+      if h.join().map(|l| l != reference.len()).unwrap_or(true) {
+        mismatches += 1;
+      }
+    }
+  }
+  json!({"rounds": 6, "mismatches": mismatches})
+}
+
+pub fn run(v: &Value) -> Value {
+  let text = v["tree"]["inner"]["text"].as_str().unwrap_or("a;b").to_string();
+  let a = scenario(&text, true);
+  let b = scenario(&text, false);
+  let replaced = a["replaced"].as_bool().unwrap_or(false) || b["replaced"].as_bool().unwrap_or(false);
+  let mut out = json!({"map_first": a, "stream_first": b, "replaced": replaced});
+  if v["stress_replace"].as_bool().unwrap_or(false) {
+    out["stress"] = stress_replace();
+  }
+  out
 }
